@@ -68,6 +68,11 @@ func harnessIntrinsic(short string) intrinsicFn {
 			if !t.IsConc() {
 				x.sol.Assert(tLe(a[1].(*Term), t))
 				x.sol.Assert(tLe(t, a[2].(*Term)))
+				if lo, _, ok := boundsOf(a[1].(*Term)); ok {
+					if _, hi, ok := boundsOf(a[2].(*Term)); ok {
+						withBounds(t, lo, hi)
+					}
+				}
 			}
 			return t
 		}
@@ -99,6 +104,7 @@ func harnessIntrinsic(short string) intrinsicFn {
 				if !b.IsConc() {
 					x.sol.Assert(tLe(mkInt(0), b))
 					x.sol.Assert(tLe(b, mkInt(255)))
+					withBounds(b, 0, 255)
 				}
 				r.B = append(r.B, b)
 			}
@@ -238,13 +244,54 @@ func harnessIntrinsic(short string) intrinsicFn {
 	case "vSetClosed":
 		return func(x *Exec, _ *ssa.Function, a []Value) Value {
 			ch := unwrapAny(a[0]).(*ChanV)
-			ch.Closed = x.branch(a[1].(*Term))
+			t := a[1].(*Term)
+			if t.IsConc() {
+				ch.Closed, ch.ClosedT = t.C.(bool), nil
+			} else {
+				ch.Closed, ch.ClosedT = false, t
+			}
 			return nil
 		}
 	case "vIsClosed":
 		return func(x *Exec, _ *ssa.Function, a []Value) Value {
 			ch, _ := unwrapAny(a[0]).(*ChanV)
+			if ch != nil && ch.ClosedT != nil {
+				return ch.ClosedT
+			}
 			return mkBool(ch != nil && ch.Closed)
+		}
+	case "vMapPutIf":
+		// vMapPutIf(m, k, v, cond): m[k] = v holds iff cond (an optional entry; no path split)
+		return func(x *Exec, _ *ssa.Function, a []Value) Value {
+			m := unwrapAny(a[0]).(*MapV)
+			c := a[3].(*Term)
+			if c.IsConc() && !c.C.(bool) {
+				return nil
+			}
+			e := &MapEntry{K: unwrapAny(a[1]), V: copyVal(unwrapAny(a[2]))}
+			if !c.IsConc() {
+				e.Present = c
+			}
+			m.Entries = append(m.Entries, e)
+			return nil
+		}
+	case "vMapHas":
+		// vMapHas(m, k, v): m[k] == v as one boolean term (no path split, optional entries included)
+		return func(x *Exec, _ *ssa.Function, a []Value) Value {
+			m, _ := unwrapAny(a[0]).(*MapV)
+			if m == nil {
+				return tFalse
+			}
+			k, v := unwrapAny(a[1]), unwrapAny(a[2])
+			r := tFalse
+			for _, e := range m.Entries {
+				c := tAnd(x.eqVal(e.K, k), x.eqVal(e.V, v))
+				if e.Present != nil {
+					c = tAnd(e.Present, c)
+				}
+				r = tOr(r, c)
+			}
+			return r
 		}
 	case "vChanLen":
 		return func(x *Exec, _ *ssa.Function, a []Value) Value {
@@ -261,6 +308,11 @@ func harnessIntrinsic(short string) intrinsicFn {
 				x.abort("INCONCLUSIVE", "vGo without sched mode")
 			}
 			x.spawn(func() { x.callValue(f, nil) })
+			return nil
+		}
+	case "vGoInline":
+		return func(x *Exec, _ *ssa.Function, a []Value) Value {
+			x.goInline = append(x.goInline, x.strOf(a[0]))
 			return nil
 		}
 	case "vYield":
@@ -456,7 +508,9 @@ func (x *Exec) mutexOp(p *Pointer, op string) {
 		}
 		x.callValue(h[k], nil)
 		x.inHook = false
-		if k == 1 && x.memoOn {
+		if k == 1 && x.memoOn && x.pos >= x.prefixLen {
+			// (merge checks apply only beyond the replayed decision prefix: the prefix belongs to a path that was
+			// itself allowed to continue through these points)
 			sig, ok := x.signature()
 			if !ok {
 				x.NoMerge++
